@@ -370,6 +370,11 @@ Missing: votes / certificates that are not part of the schedule mixed in (Byzant
 certificates), duplicates other than the re-delivered notarization votes of round 2, votes of round 2 overtaking the pumps of
 round 1 at a node. -/
 
+/-- **The nodes are independent**: two runs with the same projection to every node reach the same cluster state — the
+    interleaving of the events of different nodes is irrelevant -/
+theorem interleaving_between_nodes_irrelevant (st : State) (evs evs' : List Ev) (h : ∀ i, proj i evs = proj i evs') :
+    run st evs = run st evs' := run_congr_proj st evs evs' h
+
 /-- the operations of one slot at one node: block, pumps, the notarization votes in the order `L1`, pumps, notarization and
     finalization votes in the order `L2`, pumps -/
 def slotOps (c : Cfg) (b : Nat × Nat) (L1 L2 : List Nat) (m0 m1 m2 : Nat) : List NodeOp :=
